@@ -6,6 +6,10 @@ R12.1 sorted on every insertion : the entry vector of the layout is mutated only
 R12.2 in-slot bound present     : every *fresh* construction of an in-slot offset carrier (sub-word, shifted value,
       packed span) takes its offset/size from a WORD_SIZE_BITS-bounded provenance (comparison / min / filter against the
       constant, a bit position of a 256-bit word, a field of an already bounded carrier, or a bounded helper).
+R12.4 word widths               : every width handed to a word-type constructor is bounded by WORD_SIZE_BITS (literal /
+      constant, size of a bounded carrier, width of an existing word type, or under a comparison with the constant).
+R12.5 accumulated offsets       : where the offset of a nested packed element is added to the offset of its parent span, the
+      chain keeps the element inside the parent span / the word by a comparison.
 R12.3 span validation           : the packed-encoding lift builds a Packed node only under a validity flag whose
       computation contains the overlap test and the end <= WORD_SIZE_BITS test; merged packed types take their spans from
       a sorted, de-duplicated boundary list.
@@ -346,6 +350,22 @@ def check_r122(fx, rep):
             n += 1
             rep.fn(b["def"])
             kind, name, fields = site
+            if kind == "span" and not b["def"].startswith("tc::unification"):
+                # the span's size is the width of the element it carries (the entry's type is derived from the element, the
+                # in-word validation from the span): a span made narrower than its element hides an overhanging entry
+                origins = binding_origins(root)
+                st = fields["size"]
+                while st.get("k") in ("Unary", "AddrOf", "Use", "DropTemps", "Cast"):
+                    st = st["e"]
+                lid = F.local_of(st)
+                org = origins.get(lid) if lid is not None else None
+                rep.oblige(
+                    org is not None and org[0] == "SubWord" and org[1] == "size",
+                    "R12.3",
+                    f"span-size-is-element-size:{F.strip_generics(b['def'])}#{n}",
+                    F.loc(node["span"]),
+                    f"`{b['def']}` builds a packed span whose size `{T.short(T.term(fields['size'], env, mutated))[:60]}` is not the (unmodified) size of the sub-word it carries: the in-word validation of the span no longer speaks about the entry that is reported for it",
+                )
             for f in ("offset", "size"):
                 if f not in fields:
                     continue
@@ -485,15 +505,186 @@ def check_merge_boundaries(fx, rep, rule):
                         rep.oblige(ok, rule, "merge-boundaries", F.loc(arm["span"]), "merging two packed types no longer derives its spans from a sorted, de-duplicated boundary list: derived spans may overlap, be unordered or have end < start (underflow in `end - start`)", sample={"rule": rule, "arm": "Packed x Packed", "calls": sorted(set(names) & {"sorted", "unique", "sort", "dedup", "merge"})})
 
 
+TE_ADT = "tc::expression::TypeExpression"
+WORD_CTORS = ("word", "numeric", "unsigned_word", "signed_word", "bytes")
+
+
+def binding_origins(root):
+    """local id -> (variant, field) of the innermost pattern hop that binds it, over every pattern of the body."""
+    out = {}
+    for n, _ in F.walk(root):
+        pat = n.get("pat") if isinstance(n, dict) else None
+        if isinstance(pat, dict) and "p" in pat:
+            for lid, (name, path) in F.pat_bindings(pat).items():
+                if path:
+                    out.setdefault(lid, path[-1])
+    return out
+
+
+def check_r124(fx, rep):
+    """Every width handed to a word-type constructor is at most the word size: a literal / constant <= 256, the size of a
+    bounded carrier, the width of an existing word type (induction), or a value under a comparison with WORD_SIZE_BITS."""
+    n_sites = 0
+    for b in fx.fn_bodies():
+        hir = b.get("hir")
+        if not hir or b.get("impl_self") == TE_ADT:
+            continue  # the constructors themselves pass their parameter through; their callers are the sites
+        root = hir["value"]
+        mutated = None
+        origins = None
+        for node, ps in F.walk(root):
+            arg = None
+            if node.get("k") == "Call" and F.strip_generics(F.callee_def(node) or "").startswith(TE_ADT + "::") and (F.callee_def(node) or "").split("::")[-1] in WORD_CTORS and node["args"]:
+                arg = node["args"][0]
+            if node.get("k") == "Struct" and node.get("adt") == TE_ADT and node.get("variant") == "Word":
+                arg = next((f["e"] for f in node["fields"] if f["field"] == "width"), None)
+            if arg is None:
+                continue
+            if mutated is None:
+                mutated = T.mutated_locals(root)
+                origins = binding_origins(root)
+            env = T.env_at(ps, node, mutated)
+            t = T.term(arg, env, mutated)
+            n_sites += 1
+            rep.fn(b["def"])
+            outer = T.upper_bounds(ps, node, env, mutated)
+
+            def strip_ref(x):
+                while isinstance(x, tuple) and x and x[0] in ("ref", "deref") and len(x) > 1:
+                    x = x[1]
+                return x
+
+            def int_ok(x, known):
+                x = strip_ref(x)
+                if bounded(x, fx) is True and x[0] != "local":
+                    return True
+                for lhs, rhs, strict in known:
+                    if strip_ref(lhs) == x and (mentions_word_bits(rhs, fx) or (rhs[0] != "local" and bounded(rhs, fx) is True)):
+                        return True
+                rl = T.root_local(x)
+                if rl is not None:
+                    org = origins.get(rl[1])
+                    if org is not None and org[1] in ("width", "size", "length") and (org[0] in ("Word", "SubWord", "Shifted", "Packed") or "Span" in str(org[0])):
+                        return True
+                    # `let Some(x) = <..>.filter(|v| *v <= WORD_SIZE_BITS) else { return }`
+                    for m, _ in F.walk(root):
+                        if m.get("s") == "Let" and "init" in m and rl[1] in F.pat_bindings(m["pat"]) and closure_compares_word_bits(m["init"], fx):
+                            return True
+                return False
+
+            def cond_bounds(c, holds):
+                out = []
+                if c[0] == "un" and c[1] == "Not":
+                    return cond_bounds(c[2], not holds)
+                if c[0] == "bin" and c[1] in ("Lt", "Le", "Gt", "Ge"):
+                    op = c[1]
+                    if not holds:
+                        op = {"Lt": "Ge", "Le": "Gt", "Gt": "Le", "Ge": "Lt"}[op]
+                    if op in ("Lt", "Le"):
+                        out.append((c[2], c[3], op == "Lt"))
+                    else:
+                        out.append((c[3], c[2], op == "Gt"))
+                if c[0] == "bin" and ((c[1] == "And" and holds) or (c[1] == "Or" and not holds)):
+                    out += cond_bounds(c[2], holds) + cond_bounds(c[3], holds)
+                return out
+
+            def opt_ok(x, known, depth=0):
+                if depth > 10 or not isinstance(x, tuple):
+                    return False
+                if x[0] == "path" and str(x[1]).endswith("None"):
+                    return True
+                if x[0] == "struct" and str(x[2]).endswith("Some") and x[3]:
+                    return int_ok(x[3][0][1], known)
+                if x[0] == "if":
+                    return opt_ok(x[2], known + cond_bounds(x[1], True), depth + 1) and opt_ok(x[3], known + cond_bounds(x[1], False), depth + 1)
+                if x[0] == "match":
+                    return all(opt_ok(body, known, depth + 1) for _lbl, body in x[2])
+                if x[0] == "ret" or (x[0] == "call" and isinstance(x[1], str) and "expression" in x[1] and "Merge" in x[1]):
+                    return True
+                if x[0] == "call" and isinstance(x[1], str) and F.strip_generics(x[1]).endswith("WordUse::size"):
+                    return True
+                if x[0] == "call" and isinstance(x[1], str) and F.strip_generics(x[1]).split("::")[-1] in ("or", "and", "xor") and len(x[2]) == 2:
+                    return opt_ok(x[2][0], known, depth + 1) and opt_ok(x[2][1], known, depth + 1)
+                rl = T.root_local(x)
+                if rl is not None:
+                    org = origins.get(rl[1])
+                    if org is not None and org[1] == "width" and org[0] == "Word":
+                        return True
+                return False
+
+            ok = opt_ok(t, list(outer))
+            rep.oblige(
+                ok,
+                "R12.4",
+                f"word-width:{F.strip_generics(b['def'])}#{sum(1 for x in rep.instances.get('R12.4', []) if x.startswith('word-width:' + F.strip_generics(b['def']) + '#')) + 1}",
+                F.loc(node["span"]),
+                f"`{b['def']}` builds a word type whose width `{T.short(t)[:80]}` is not bounded by WORD_SIZE_BITS: a layout entry of that type ends beyond its 256-bit slot",
+                sample={"rule": "R12.4", "fn": b["def"], "width": T.short(t)[:80], "at": F.loc(node["span"])},
+            )
+    rep.floor("R12.4", n_sites, 6, "word-type constructions with a width argument outside the type-expression constructors")
+
+
+def check_r125(fx, rep):
+    """Offsets accumulate when a nested packed type is flattened into its parent (`nested offset + span offset`). The sum of
+    two in-word offsets is not an in-word offset: the flattening must keep the nested elements inside the parent span (or the
+    word) by a comparison on that very chain."""
+    n_sites = 0
+    for b in fx.fn_bodies():
+        hir = b.get("hir")
+        if not hir or "AbiValue" not in (fx.fns.get(b["def"], {}).get("output") or ""):
+            continue
+        for m, mps in F.exprs(hir["value"], "Match"):
+            for a in m["arms"]:
+                if F.pat_variants(a["pat"]) != {(TE_ADT, "Packed")}:
+                    continue
+                ordinal = 0
+                for n, ps in F.walk(a["body"]):
+                    if n.get("k") != "Binary" or n["op"] != "Add" or (n.get("ty") or "").strip() != "usize":
+                        continue
+                    ordinal += 1
+                    n_sites += 1
+                    rep.fn(b["def"])
+                    # the enclosing iterator chain (receiver chain of the adaptor whose closure contains the sum)
+                    guarded = False
+                    for anc, key in reversed(ps):
+                        if anc.get("k") == "MethodCall" and key == "args":
+                            chain = anc
+                            while chain is not None and chain.get("k") == "MethodCall":
+                                if chain["method"] in ("filter", "take_while", "skip_while", "filter_map") and any(
+                                    x.get("k") == "Binary" and x["op"] in ("Lt", "Le", "Gt", "Ge") for c in chain["args"] for x, _ in F.walk(c)
+                                ):
+                                    guarded = True
+                                chain = chain.get("recv")
+                        if anc.get("k") == "If" and key in ("then", "else") and any(x.get("k") == "Binary" and x["op"] in ("Lt", "Le", "Gt", "Ge") for x, _ in F.walk(anc["cond"])):
+                            guarded = True
+                    # or the sum itself is compared / clamped right away
+                    for anc, key in reversed(ps[-3:]):
+                        if anc.get("k") == "Binary" and anc["op"] in ("Lt", "Le", "Gt", "Ge"):
+                            guarded = True
+                        if anc.get("k") == "MethodCall" and anc["method"] in ("min", "clamp"):
+                            guarded = True
+                    rep.oblige(
+                        guarded,
+                        "R12.5",
+                        f"accumulate:{F.strip_generics(b['def'])}#{ordinal}",
+                        F.loc(n["span"]),
+                        f"`{b['def']}` adds the offset of a nested packed element to the offset of its parent span with no bound on the way: elements that lie beyond the parent span are reported at offsets of 256 and more",
+                        sample={"rule": "R12.5", "fn": b["def"], "at": F.loc(n["span"]), "bounded": guarded},
+                    )
+    rep.floor("R12.5", n_sites, 1, "offset accumulations in the conversion of packed types to layout entries")
+
+
 def check(fx, rep, tier):
     check_r121(fx, rep)
     check_r122(fx, rep)
     check_r123(fx, rep)
+    check_r124(fx, rep)
+    check_r125(fx, rep)
     return rep.finish(
         "Who-may-write audit of the layout's entry vector plus the push-then-sort-by-(index,offset) path rule in the insertion method and the "
         "ordering impls of the 256-bit index wrapper; bounded-provenance audit of every fresh construction of an in-slot offset carrier "
         "(sub-word, shifted, packed span); presence and position of the overlap / end-in-word validation in the packed lift and of the "
         "sorted+unique boundary derivation in the packed merge.",
         "instances = mutators of the entry vector, pushes, ordering impls, carrier constructions x {offset,size}, packed constructions; enumerated from the crate",
-        ["width arithmetic for every AbiType and accumulated offsets through nested packed types are value-level and not decided; only presence and position of the bounds are"],
+        ["width arithmetic for every AbiType is value-level and not decided; only presence and position of the bounds are"],
     )
